@@ -5,9 +5,9 @@
   (conclusion: a WriteError) are FALSE of the model: `Proofs/C06Check.lean` (`step_uniq_false`,
   `dup_write_writeError_false`).  What is proved:
 
-  * `step_uniq_inv_alt` — on the scalar-key domain (`ScalarInv` of the resulting state), with no
+  * `step_uniq_inv_alt` — on the value-key domain (`ValueInv` of the resulting state), with no
     other hypothesis; behind it `step_carried`: the invariant `UniqS` ("uniqueness among the
-    scalar-keyed, covered documents") is preserved by every operation with no hypothesis on the
+    value-keyed, covered documents") is preserved by every operation with no hypothesis on the
     documents at all, hence `reachable_uniq_alt` for whole histories;
   * `dup_write_rejected_alt` (always rejected) and `dup_write_rejected_dupkey_alt` (with
     DuplicateKeyError under three more hypotheses);
@@ -40,16 +40,16 @@ theorem step_carried (cfg : Cfg) (now : Int) (c : Coll) (op : Val) (hU : UniqS c
   step_uniqS cfg now c op hU
 
 theorem step_uniq_inv_alt (cfg : Cfg) (now : Int) (c : Coll) (op : Val)
-    (hu : UniqInv c) (hs' : ScalarInv (stepColl cfg now c op).1) :
+    (hu : UniqInv c) (hs' : ValueInv (stepColl cfg now c op).1) :
     UniqInv (stepColl cfg now c op).1 :=
   uniqInv_of_uniqS (step_uniqS cfg now c op (uniqS_of_uniqInv hu)) hs'
 
 /-- the hypotheses of `step_uniq_inv_alt`, checked by evaluation -/
 theorem step_uniq_inv_check (cfg : Cfg) (now : Int) (c : Coll) (op : Val)
-    (h : (uniqB c && scalB (stepColl cfg now c op).1) = true) :
+    (h : (uniqB c && valB (stepColl cfg now c op).1) = true) :
     UniqInv (stepColl cfg now c op).1 := by
   simp only [Bool.and_eq_true] at h
-  exact step_uniq_inv_alt cfg now c op ((uniqB_iff c).1 h.1) ((scalB_iff _).1 h.2)
+  exact step_uniq_inv_alt cfg now c op ((uniqB_iff c).1 h.1) ((valB_iff _).1 h.2)
 
 /-! ### histories -/
 
@@ -97,22 +97,22 @@ theorem runSt_carried (cfg : Cfg) : ∀ (ops : List Val) (s : St), UniqS s.c →
     simpa [runSt] using this
 
 theorem reachable_uniq_alt (cfg : Cfg) (ops : List Val)
-    (hs : ScalarInv (run cfg ops).2.c) : UniqInv (run cfg ops).2.c := by
+    (hs : ValueInv (run cfg ops).2.c) : UniqInv (run cfg ops).2.c := by
   refine uniqInv_of_uniqS ?_ hs
   rw [run_snd]
   exact runSt_carried cfg ops {} (fun ix hix => by cases hix)
 
 /-- the hypothesis of `reachable_uniq_alt`, checked by evaluation on a concrete history -/
 theorem reachable_uniq_check (cfg : Cfg) (ops : List Val)
-    (h : scalB (run cfg ops).2.c = true) : UniqInv (run cfg ops).2.c :=
-  reachable_uniq_alt cfg ops ((scalB_iff _).1 h)
+    (h : valB (run cfg ops).2.c = true) : UniqInv (run cfg ops).2.c :=
+  reachable_uniq_alt cfg ops ((valB_iff _).1 h)
 
 /-! ### a duplicate write is rejected -/
 
 theorem dup_write_rejected_alt (now : Int) (c : Coll) (d : Val) (ix : Index) (p : Val × Val)
-    (hs : ScalarInv c) (hix : ix ∈ c.indexes) (hu : ix.unique = true) (hnt : c.ttlIndexes = [])
+    (hs : ValueInv c) (hix : ix ∈ c.indexes) (hu : ix.unique = true) (hnt : c.ttlIndexes = [])
     (hp : p ∈ c.docs) (hcp : covers ix p.2 = true) (hcd : covers ix (patchDT d) = true)
-    (hsd : scalarKeys ix (patchDT d) = true)
+    (hsd : valueKeys ix (patchDT d) = true)
     (heq : keyEq (keyVals ix p.2) (keyVals ix (patchDT d)) = true)
     (hid : ∃ fs, d = .doc fs ∧ dhas "_id" fs = true) :
     ∃ e, insertDoc now c d = .error e := by
@@ -126,9 +126,9 @@ theorem dup_write_rejected_alt (now : Int) (c : Coll) (d : Val) (ix : Index) (p 
       hid c' id)
 
 theorem dup_write_rejected_dupkey_alt (now : Int) (c : Coll) (d : Val) (ix : Index) (p : Val × Val)
-    (hs : ScalarInv c) (hix : ix ∈ c.indexes) (hu : ix.unique = true) (hnt : c.ttlIndexes = [])
+    (hs : ValueInv c) (hix : ix ∈ c.indexes) (hu : ix.unique = true) (hnt : c.ttlIndexes = [])
     (hp : p ∈ c.docs) (hcp : covers ix p.2 = true) (hcd : covers ix (patchDT d) = true)
-    (hsd : scalarKeys ix (patchDT d) = true)
+    (hsd : valueKeys ix (patchDT d) = true)
     (heq : keyEq (keyVals ix p.2) (keyVals ix (patchDT d)) = true)
     (hid : ∃ fs, d = .doc fs ∧ dhas "_id" fs = true)
     (hk : ∃ k, storeKey (idOfDoc (patchDT d)) = .ok k)
@@ -144,7 +144,7 @@ theorem dup_write_rejected_dupkey_alt (now : Int) (c : Coll) (d : Val) (ix : Ind
 
 theorem create_over_dups_fails_clean (now : Int) (c : Coll) (ix : Index) (a b : Val × Val)
     (hu : ix.unique = true) (hnt : c.ttlIndexes = []) (hnew : ∀ i ∈ c.indexes, i.name ≠ ix.name)
-    (hsc : ∀ p ∈ c.docs, scalarKeys ix p.2 = true) (hpf : ix.partialFilter = none)
+    (hsc : ∀ p ∈ c.docs, valueKeys ix p.2 = true) (hpf : ix.partialFilter = none)
     (hns : ix.sparse = false)
     (hab : [a, b].Sublist c.docs)
     (heq : keyEq (keyVals ix a.2) (keyVals ix b.2) = true) :
